@@ -1282,6 +1282,22 @@ func (c *Check) confirm(v *Violation) *Violation {
 			}
 		}
 	}
+	if c.prop == "C13" && strings.HasPrefix(v.Class, "flags:") {
+		// attribution: with LogFlags 0 and everything else unchanged (same delivery, sink, stalls)
+		// the call must agree with the reference — otherwise the difference is not the flags' doing
+		// (a delivery or history matter, judged under C11)
+		q := clonePlan(v.Plan)
+		for i := range q.Options {
+			q.Options[i].Flags = 0
+		}
+		pr := c.env.Run(q)
+		for _, x := range c.judge(c, q, pr).Violations {
+			if strings.HasPrefix(x.Class, "flags:") {
+				c.count("dropped_not_the_flags_doing", 1)
+				return nil
+			}
+		}
+	}
 	if c.prop == "C13" && v.Task >= 0 {
 		nops := 0
 		for _, t := range v.Plan.Tasks {
